@@ -1,0 +1,86 @@
+//go:build verif
+
+// Contracts of package nut11 for the govc verifier (/verif). Comment-only file,
+// compiled only with the build tag `verif`.
+package nut11
+
+//@ func ParseP2PKTags
+//@   tags C12 C13
+//@   safety C06 C12
+//@   ensures @nonnil err == nil ==> result != nil
+//@   ensures @errnil err != nil ==> result == nil
+//@   ensures @nsigs [C12] err == nil ==> result.NSigs >= 0 && result.NSigs <= 127
+//@   ensures @fewtags [C12] err == nil ==> len(tags) <= 5
+//@   loop range(tags) invariant p2pkTags.NSigs >= 0 && p2pkTags.NSigs <= 127
+//@   loop 2 invariant 1 <= i && j == i - 1 && len(pubkeys) == len(tag) - 1 && p2pkTags.NSigs >= 0 && p2pkTags.NSigs <= 127
+//@   loop 3 invariant 1 <= i && j == i - 1 && len(refundKeys) == len(tag) - 1 && p2pkTags.NSigs >= 0 && p2pkTags.NSigs <= 127
+
+//@ func ParsePublicKey
+//@   tags C12
+//@   safety C06 C12
+//@   ensures @ok err == nil <==> (hexok(key) && pt.parseok(hexdec(key)))
+//@   ensures @pt err == nil ==> r0 != nil && pk.pt(*r0) == pt.parse(hexdec(key))
+//@   ensures @errnil err != nil ==> r0 == nil
+
+//@ func ParseSignature
+//@   tags C12
+//@   safety C06 C12
+//@   ensures @ok err == nil <==> (hexok(signature) && sig.parseok(hexdec(signature)))
+//@   ensures @sig err == nil ==> r0 != nil && *r0 == sig.parse(hexdec(signature))
+//@   ensures @errnil err != nil ==> r0 == nil
+
+//@ func DuplicateSignatures
+//@   tags C12 C13
+//@   safety C06 C12
+//@   ensures @nodup !result ==> (forall i, j :: 0 <= i && i < j && j < len(signatures) ==> signatures[i] != signatures[j])
+//@   ensures @dup result ==> (exists i, j :: 0 <= i && i < j && j < len(signatures) && signatures[i] == signatures[j])
+//@   loop range(signatures) invariant 0 <= i && i <= len(signatures) && (forall j :: 0 <= j && j < i ==> (signatures[j] in sigs) && sigs[signatures[j]]) && (forall k Str :: (k in sigs) ==> (exists j :: 0 <= j && j < i && signatures[j] == k)) && (forall a, b :: 0 <= a && a < b && b < i ==> signatures[a] != signatures[b])
+
+// A secret carries SIG_ALL when one of its tags is exactly ["sigflag", "SIG_ALL"].
+//@ macro sigall(sec) = (exists t :: 0 <= t && t < len(sec.Data.Tags) && len(sec.Data.Tags[t]) == 2 && sec.Data.Tags[t][0] == "sigflag" && sec.Data.Tags[t][1] == "SIG_ALL")
+
+//@ func IsSigAll
+//@   tags C12
+//@   safety C06 C12
+//@   ensures @iff [C12] result <==> sigall(secret)
+//@   loop range(secret.Data.Tags) invariant 0 <= i && i <= len(secret.Data.Tags) && (forall t :: 0 <= t && t < i ==> !(len(secret.Data.Tags[t]) == 2 && secret.Data.Tags[t][0] == "sigflag" && secret.Data.Tags[t][1] == "SIG_ALL"))
+
+// NUT-11: SIG_ALL is in force when ANY input carries it, wherever it sits.
+//@ func ProofsSigAll
+//@   tags C12
+//@   safety C06 C12
+//@   ensures @anyposition [C12] result <==> (exists i :: 0 <= i && i < len(proofs) && nut10.ok(proofs[i].Secret) && sigall(nut10.parse(proofs[i].Secret)))
+//@   loop range(proofs) invariant 0 <= i && i <= len(proofs) && (forall j :: 0 <= j && j < i ==> !(nut10.ok(proofs[j].Secret) && sigall(nut10.parse(proofs[j].Secret))))
+
+// Each key is counted at most once: the number of counted signatures never
+// exceeds the number of keys consumed. (The full matching semantics is checked
+// by the bounded harness bounded/hvs.) For callers the outcome is recorded in
+// ghost variables.
+//@ func HasValidSignatures
+//@   tags C12 C13
+//@   safety C06 C12
+//@   modifies hvs.last, hvs.calls
+//@   assumes hvs.last == result && hvs.calls == old(hvs.calls) + 1
+//@   loop range(signatures) invariant validSignatures >= 0 && len(pubkeysCopy) <= len(pubkeys) && validSignatures <= len(pubkeys) - len(pubkeysCopy)
+//@   ensures @bounded [C12,C13] result ==> Nsigs <= len(pubkeys) || Nsigs <= 0
+
+//@ func PublicKeys
+//@   tags C12
+//@   safety C06 C12
+
+//@ macro expired(t) = t.Locktime > 0 && clk.now > t.Locktime
+
+//@ func VerifyP2PKLockedProof
+//@   tags C12
+//@   safety C06 C12
+//@   calls HasValidSignatures asserts @handed [C12] bytes(hash) == sha256(bytesOf(proof.Secret)) && signatures == p2pkWitness.Signatures && ((expired(p2pkTags) && Nsigs == 1 && pubkeys == p2pkTags.Refund && len(p2pkTags.Refund) > 0) || (!expired(p2pkTags) && Nsigs >= 1 && Nsigs == (p2pkTags.NSigs > 0 ? p2pkTags.NSigs : 1) && len(pubkeys) == 1 + (p2pkTags.NSigs > 0 ? len(p2pkTags.Pubkeys) : 0) && pk.pt(*pubkeys[0]) == pt.parse(hexdec(proofSecret.Data.Data)) && (forall j :: 0 <= j && j < len(pubkeys) - 1 ==> pubkeys[1 + j] == p2pkTags.Pubkeys[j])))
+//@   ensures @accepts [C12] r0 == nil ==> (hvs.calls == old(hvs.calls) + 1 && hvs.last) || (hvs.calls == old(hvs.calls))
+//@   ensures @onecall [C12] hvs.calls <= old(hvs.calls) + 1
+//@   ensures @anyonecanspend [C12] r0 == nil && hvs.calls == old(hvs.calls) ==> expired(p2pkTags) && len(p2pkTags.Refund) == 0
+//@   ensures @witness [C12] r0 == nil && hvs.calls == old(hvs.calls) + 1 ==> len(p2pkWitness.Signatures) >= 1
+//@   ensures @nodup [C12] r0 == nil && !expired(p2pkTags) ==> (forall i, j :: 0 <= i && i < j && j < len(p2pkWitness.Signatures) ==> p2pkWitness.Signatures[i] != p2pkWitness.Signatures[j])
+//@   ensures @pubkeys [C12] r0 == nil && !expired(p2pkTags) && p2pkTags.NSigs > 0 ==> len(p2pkTags.Pubkeys) > 0
+
+//@ func CanSign
+//@   tags C12
+//@   safety C06 C12
